@@ -27,6 +27,7 @@ type mvccConcEngine struct {
 	ngc, nfr int
 	expGC    int64
 	expFree  int64
+	sentJobs int64 // lists handed to background workers so far (collection and free)
 	kind     []string
 	down     bool
 }
@@ -171,6 +172,14 @@ func (e *mvccConcEngine) step(toks []string) string {
 		e.ctl.Steer = func(point int, obj uintptr) bool {
 			if n, ok := nitroPoint[point]; ok {
 				if n == "FREE_SEND" {
+					// Jobs are named in arrival order. Before this list is sent, wait until the receiver of every
+					// list sent earlier has parked, so that arrival order = send order even when one segment
+					// destructs several sessions.
+					deadline := time.Now().Add(10 * time.Second)
+					for atomic.LoadInt64(&e.ctl.Adopted) < atomic.LoadInt64(&e.sentJobs) && time.Now().Before(deadline) {
+						time.Sleep(20 * time.Microsecond)
+					}
+					atomic.AddInt64(&e.sentJobs, 1)
 					atomic.AddInt64(&e.expFree, 1)
 					return false
 				}
@@ -347,6 +356,7 @@ func (e *mvccConcEngine) step(toks []string) string {
 		}
 		if nitroPoint[t.Point] == "COLLECT_SEND" {
 			atomic.AddInt64(&e.expGC, 1)
+			atomic.AddInt64(&e.sentJobs, 1)
 		}
 		ev, err := e.ctl.Step(t)
 		return e.report(t, ev, err)
